@@ -1184,6 +1184,8 @@ def run(tier: str, only=None) -> core.Result:
              for h in req_helpers if hd.short(h["name"]) in BOOL_HELPERS for i, block in enumerate(_chunks(bcodes, 4))]
     out_b = explorer.explore(RUN, bcfgs)
     sched.absorb(res, "iii-boolean-helpers-answers-differ-per-request", RUN, out_b, bcfgs)
+    from . import c07_ctx
+    c07_ctx.add_part(res, tier)
     samples += _pick("iii-boolean-helpers-answers-differ-per-request", bcfgs)
     sched.debug_pass(res, "iii-boolean-helpers-answers-differ-per-request", RUN, bcfgs, every=2)
     # initialize helpers: texts that mention the protocol version, every code of the grid
